@@ -640,7 +640,7 @@ def run_columns(ctx, env, rng, n_cases):
         plain = [f"{rng.choice(words)}#{i}" if rng.random() < 0.85 else rng.choice(words) for i in range(n)]
         items = [Text(s) for s in plain]
         pad = rng.choice([(0, 1), 0, 1, (0, 2), (0, 3, 0, 1), (1,), (0, 0, 0, 4)])
-        width = rng.choice([None, None, None, 0, 1, 4, 6, 9, 30])
+        width = rng.choice([None, None, None, 0, 1, 4, 6, 9, 30, -2])
         o = dict(padding=pad, width=width, equal=rng.random() < 0.3, column_first=rng.random() < 0.5, right_to_left=rng.random() < 0.4,
                  expand=rng.random() < 0.3, align=rng.choice([None, None, "left", "center", "right"]))
         for mw in sorted({1, 2, 3, 5, 8, rng.randint(4, env.width), env.width}):
@@ -784,14 +784,17 @@ def run(ctx):
     names = box_names()
     boxes = genboxes.parse(REPO)
     ctx.assumptions += [
-        "children are oracles: Measurement.get / console.render of each child are tabulated on real rich for every width and shipped with the request; "
-        "the frames are pure functions of options + oracles (an out-of-range lookup answers `unmodelled`)",
-        "styles are not modelled in frames (only bold/underline2 of tree guide styles, which select the guide characters): compared is the text, "
-        "the line structure and the control segments",
-        "Panel titles and Rule texts are one-line, tab-free, U+0020-only-whitespace Text objects that fit the width: their rendering by Text.__rich_console__ "
-        "is modelled only as `rstrip_end` + identity (C02's subject); other titles answer `unmodelled`",
+        "children are oracles: Measurement.get / console.render of each child are tabulated on real rich for every width (under the ConsoleOptions "
+        "in force: the environment's justify / overflow / no_wrap, and a second time under the options of a default table Column for the items of Columns) "
+        "and shipped with the request; the frames are pure functions of options + oracles (an out-of-range lookup answers `unmodelled`)",
+        "styles: Padding / Panel / Align / Styled / VerticalCenter / Rule (Text model) are compared segment style by segment style (the five compared fields of "
+        "Style; colours and links as ids; `Style.__add__` restated on those fields in the driver — C06 proves the real thing); Bar, ProgressBar, Tree and the "
+        "inner table of Columns are compared as text (their own styles are not modelled), as is everything that contains them",
+        "Panel titles and Rule texts are values of C05's Text model wrapped by C02's Wrap model (spans, tabs, any whitespace, wider than the console, "
+        "options.justify); the plain-text model of the first round (`_tmode S`, `RULE`) is still compared on its one-line simple domain",
         "floats of Bar / ProgressBar are exact rationals; generated numbers are ints or dyadic fractions, on which int(a*b/c) is exact in binary64",
-        "the inner Table of Columns is not modelled: compared is the grid of items handed to Table.add_row and the column count",
+        "Columns is rendered through the composition layer (Model/Layout.lean, C01) and the table model (Model/Table.lean, C07), read-only: a change there can "
+        "break this check's build; negative Panel / Align / Constrain / Bar / ProgressBar / Columns widths are modelled as the code computes (Python ints and slices)",
     ]
 
     # ---- Padding.unpack
@@ -820,7 +823,7 @@ def run(ctx):
         widths = (list(range(0, env.width + 4)) + [env.width + 6, env.width + 8]) if env.width <= 24 else sorted({0, 1, 2, 3, 4, 5, 6, 7, 9, 12, 17, env.width - 1, env.width, env.width + 2} | {rng.randint(1, env.width) for _ in range(8)})
         exprs = []
         # bounded-exhaustive core: every leaf under every option class of every frame
-        leaf_ids = range(nl) if ei < 2 or not quick else rng.sample(range(nl), 6)
+        leaf_ids = (range(nl) if ei < 1 else rng.sample(range(nl), 8 if ei < 2 else 4)) if quick else range(nl)
         for i in leaf_ids:
             L = ("L", i)
             for pad in [0, 1, (1, 2), (0, 1, 2, 3), (2, 0, 1, 0), (0, 0, 0, 2)]:
@@ -828,25 +831,25 @@ def run(ctx):
                     exprs.append(("PAD", pad, ex, L, rng.choice(STYLES)))
             for al in ("left", "center", "right"):
                 for pd in (True, False):
-                    for w_ in (None, 0, 3, 8, -2):
+                    for w_ in ((None, 0, 3, 8, -2) if not quick else (None, rng.choice([0, 3, 8, -2]))):
                         exprs.append(("ALIGN", {"align": al, "pad": pd, "width": w_, "style": rng.choice([None] + STYLES)}, L))
             for w_ in (None, 0, 5, 30, -3):
                 exprs.append(("CONSTRAIN", w_, L))
             exprs.append(("STYLED", L, rng.choice(STYLES)))
             exprs.append(("VC", rng.choice([None] + STYLES), L))
             exprs.append(("PANEL", {"style": "on red", "border_style": "bold", "padding": 0}, L))
-            for _ in range(14 if quick else 60):
+            for _ in range(9 if quick else 60):
                 exprs.append(("PANEL", rand_panel_opts(rng, names), L))
             exprs.append(("PANEL", {"expand": False, "padding": 0}, L))
             exprs.append(("PANEL", {"expand": False, "title": "ab"}, L))
             exprs.append(("PANEL", {}, ("PAD", 1, False, L)))
             exprs.append(("ALIGN", {"align": "center"}, ("PANEL", {"expand": False, "title": "ab"}, L)))
-        for _ in range(60 if quick else 500):
+        for _ in range(40 if quick else 500):
             exprs.append(rand_expr(rng, nl, 3, names))
-        for _ in range(40 if quick else 300):
+        for _ in range(25 if quick else 300):
             exprs.append(("TREE", rand_tree(rng, 0, nl, [rng.randint(0, 9)])))
         # Columns rendered to the characters (the inner Table.grid is C07's model, the glue C01's): items are leaves / small frames
-        for _ in range(40 if quick else 300):
+        for _ in range(25 if quick else 300):
             items = [("L", rng.randrange(nl)) if rng.random() < 0.85 else ("PAD", 1, False, ("L", rng.randrange(nl)), "none") for _ in range(rng.choice([0, 1, 2, 3, 4, 5, 7]))]
             exprs.append(("COLS", dict(padding=rng.choice([(0, 1), 0, 1, (0, 2), (1, 0, 0, 3)]), width=rng.choice([None, None, None, 0, 3, 6, 30]),
                                        equal=rng.random() < 0.3, column_first=rng.random() < 0.5, right_to_left=rng.random() < 0.4,
@@ -858,7 +861,7 @@ def run(ctx):
         for title in ["", "t", "title here", "あい", "à ", " lead", "a\nb", Text("tx"), Text("à̀ ")]:
             for ch in ["─", "-", "あ", "ab", "=あ", "- ", "━─"]:
                 for al in ("left", "center", "right"):
-                    if quick and rng.random() < 0.5:
+                    if quick and rng.random() < 0.65:
                         continue
                     o_ = {"title": title, "_title_plain": rule_title_plain(wd.console, title), "characters": ch, "align": al,
                           "end": rng.choice(["\n", "\n", "", "\n\n"])}
@@ -876,11 +879,11 @@ def run(ctx):
         bars = []
         for size, bg, en in [(100, 0, 50), (100, 20, 20), (10, 3, 7), (7, 1, 6), (1, Fraction(1, 4), Fraction(3, 4)), (0, 0, 0), (100, -5, 200), (3, 0, 3),
                              (8, Fraction(1, 8), Fraction(9, 8)), (5, 4, 2)] + [(rng.randint(1, 40), rng.randint(-3, 40), rng.randint(-3, 45)) for _ in range(6 if quick else 60)]:
-            for w_ in (None, 0, 5, 40, -3):
+            for w_ in ((None, 0, 5, 40, -3) if not quick else (None, rng.choice([0, 5, 40, -3]))):
                 bars.append(("BAR", {"size": size, "begin": bg, "end": en, "width": w_}))
         for tot, comp in [(100, 0), (100, 50), (100, 100), (100, 150), (3, 1), (7, -2), (0, 0), (8, Fraction(5, 2)), (-4, 2), (1, Fraction(1, 2))] + [
                 (rng.randint(1, 50), rng.randint(-2, 55)) for _ in range(6 if quick else 60)]:
-            for w_ in (None, 0, 5, 40, -3):
+            for w_ in ((None, 0, 5, 40, -3) if not quick else (None, rng.choice([0, 5, 40, -3]))):
                 for pulse in (False, True):
                     bars.append(("PBAR", {"total": tot, "completed": comp, "width": w_, "pulse": pulse, "time": Fraction(rng.randint(-40, 400), 4)}))
         exprs += bars
@@ -907,7 +910,7 @@ def run(ctx):
         ctx.check(cell_len(first) <= 9, "RenderGroup(ProgressBar, Text)", (repr(env), "RenderGroup(ProgressBar(width=5, completed=50), Text('ccc dd'))", 9),
                   f"the line holding the bar is {cell_len(first)} cells wide in a width of 9: {first!r}",
                   finding="progressbar-no-newline" if narrow else None)
-        run_columns(ctx, env, rng, 60 if quick else 700)
+        run_columns(ctx, env, rng, 45 if quick else 700)
     ctx.rule = (
         "per console environment (%d of them: widths %s, ascii_only / legacy_windows / no_color / colour systems / safe_box): every one of %d leaf children "
         "(empty, one word, wrapping, multi-line, wide, zero-width, centred, right, no_wrap+ellipsis, blank lines, Panel, str, Table, tab) under every option class "
@@ -931,22 +934,24 @@ MANIFEST = {
     "padding_rect / panel_rect / align_rect (what Segment.split_lines makes of the frame's output is exactly: border or blank lines, then the child's own "
     "rendered lines unchanged and in order between exactly the requested border / padding cells, all lines of one exact width, the full width when expanding), "
     "for all 19 boxes of rich/box.py re-translated on every run with the side condition `every border character is one cell and no line feed` re-proved by "
-    "decide +kernel; rule_exact (exactly w cells for every title / multi-cell `characters`); bar_exact, progress_bar_le_and_exact, progress_pulse_exact_width "
-    "over exact rationals; columns_each_once_in_order (grid handed to the inner table: every item exactly once, row-first / column-first closed form / "
-    "right-to-left, blanks only at the end of the last row) plus the exact ZeroDivisionError condition; tree_walk_is_depth_first (the explicit stack machine "
-    "of Tree.__rich_console__, with termination, equals the depth-first reference walk), tree_prefix_four_cells_per_level, tree_rect. "
-    "Witnesses for the four defects of rich 9.10.0 as found (all repaired in /repo): old_align_drops_child_line / old_padding_fit_drops_child_line / "
-    "old_panel_fit_has_no_body_row (F25, fix a9def3a), old_rule_right_loses_title (fix 8879061), old_rule_short_after_rstrip (fix f5f2be9), "
-    "old_columns_zero_division_iff (F11, fix f7ecf83; columns_repaired_never_raises for the repaired variant). "
-    "Tie: ~119k (quick; evidence/C08.json: 118,648 = 92,560 renders + 23,662 measurements + 2,417 Columns grids + 9 padding unpacks) generated (environment, child, frame options, width) cases per run compared text-for-text between the Lean model and real rich, "
-    "with the children tabulated on real rich, plus the theorems' statements evaluated on rich's own output by an independent oracle.",
+    "decide +kernel; the STYLED layer: padding_style, panel_border_style, panel_content_pad_style, align_style, vertical_center_lines (every cell a frame adds "
+    "carries the requested style, every child cell style + its own, for an arbitrary style algebra); rule_exact / rule_exact_repaired (exactly w cells for every "
+    "title / multi-cell `characters`), rule_right_shows_title, rule_no_title_end; bar_exact, bar_begin_end_spec (which cells are blank / partial / full as a function "
+    "of begin, end, size), progress_bar_le_and_exact, progress_pulse_exact_width over exact rationals; columns_each_once_in_order (grid handed to the inner table: "
+    "every item exactly once, row-first / column-first closed form / right-to-left, blanks only at the end of the last row), columns_rendered_cells (the rendered "
+    "grid table's cell (r, j) IS that item's oracle), columns_repaired_never_raises; tree_walk_is_depth_first (the explicit stack machine of Tree.__rich_console__, "
+    "with termination, equals the depth-first reference walk), tree_prefix_four_cells_per_level, tree_rect; panel_title_own_width. "
+    "Witnesses (old_…) for every defect found: zero-width child (F25), rule right / rstrip, Columns zero division (F11), panel content pad unstyled, panel title at "
+    "console width, rule without title ignoring `end`. "
+    "Tie: ~67k (quick) / ~800k (thorough) generated (environment, options, child, frame options, width) cases per run compared between the Lean model and real rich — "
+    "styled frames segment style by segment style, Panel titles and Rule texts through C05's Text and C02's Wrap models, Columns to the characters through C01's "
+    "composition layer and C07's table model — with the children tabulated on real rich, plus the theorems' statements evaluated on rich's own output by an independent oracle.",
     "note": "Trusted: Lean kernel; axioms propext/Classical.choice/Quot.sound; translators harness/tables.py + harness/gen/boxes.py; the correspondence harness. "
-    "Partial: styles are not modelled in frames (text, line structure and control flags are); Panel titles / Rule texts outside the one-line, tab-free, "
-    "fits-the-width domain answer `unmodelled` (their Text rendering is C02's); Bar / ProgressBar floats are exact rationals (generated inputs are ints / dyadic); "
-    "the inner Table of Columns is an oracle (C07): the theorem is about the grid handed to it; VerticalCenter and Panel/Align `style` are not modelled. "
-    "Genuine defects found, all repaired in /repo except F23: F25 (zero-width child dropped by Align / Padding(expand=False) / Panel(expand=False); fix a9def3a), "
-    "Rule(align='right') with multi-cell characters losing its title (fix 8879061), rule one cell short after Text.rstrip_end with zero-width characters "
-    "(fix f5f2be9), F11 (Columns(width >= available) raises ZeroDivisionError; fix f7ecf83); F23 (ProgressBar emits no line feed) is the known finding "
-    "progressbar-no-newline (KNOWN-FINDING on every run, theorem progress_bar_has_no_newline).",
+    "Partial: styles of Bar / ProgressBar / Tree guides / the inner table of Columns are not modelled (text only); Style.__add__ is restated on the five compared fields "
+    "in the driver (C06 owns the proof about the real class); Bar / ProgressBar floats are exact rationals (generated inputs are ints / dyadic); "
+    "Panel `highlight`, Tree `highlight`, `Text.render` raising on inconsistent spans (answers `unmodelled`). "
+    "Known finding: progressbar-no-newline (F23).  Findings of the deepening round awaiting a decision: panel-content-pad-unstyled, panel-title-at-console-width "
+    "(+ panel-title-ellipsis-in-zero-cells, same repair), rule-no-title-ignores-end — repairs in pending_fixes/C08-render-lines-pad-style.diff, "
+    "C08-panel-title-width.diff, C08-rule-no-title-end.diff.",
     "design_ref": "DESIGN.md section 7 (C01, C07, C08, C09 block) and section 8 (F11, F23, F25)",
 }
